@@ -23,6 +23,10 @@ var (
 	ErrKeyLengthExceeded = errors.New("key length exceeded max allowed value")
 	// ErrValueLengthExceeded value length exceeded max allowed value.
 	ErrValueLengthExceeded = errors.New("value length exceeded max allowed value")
+	// ErrInvalidLimit limit must not be negative.
+	ErrInvalidLimit = errors.New("limit must be a positive number")
+	// ErrKeysOnlyCountOnly keys_only and count_only are mutually exclusive.
+	ErrKeysOnlyCountOnly = errors.New("keys_only and count_only must not be set at the same time")
 	// ErrUnknownQueryType unknown type sent to the Lookup method.
 	ErrUnknownQueryType = errors.New("unknown query type")
 	// ErrInvalidNodeID invalid (negative or 0) node ID.
